@@ -317,6 +317,35 @@ def default_lattice(ctx, idx0, tier):
     return cases
 
 
+def future_length_lattice(ctx, idx0, tier):
+    """Annotations whose stored text has EVERY length around the bound of _evaluate_if_future_annotations (today 50):
+    `a: Integer(minimum=10...0)` and `a: t.Optional[Integer(minimum=10...0)]` (not listed in _optional), next to a
+    required `b: int`; the base variant is the assignment form, which the __future__ import does not touch."""
+    lo, hi = (40, 60) if tier == "quick" else (30, 80)
+    cases = []
+    b_decl = {"annot": True, "ty": ("name", "int"), "eq": None, "kw": None, "opt": False}
+    for wrap in ("inst", "optional"):
+        for L in range(lo, hi + 1):
+            nd = L - 17 - (12 if wrap == "optional" else 0)
+            if nd < 1:
+                continue
+            g = {"t": "num", "k": "Integer", "s": "Any", "min": ("int", 10 ** (nd - 1))}
+            if wrap == "inst":
+                f, ty, base_ty, opt = g, ("inst", g), ("inst", g), False
+            else:
+                f = {"t": "anyof", "fs": [g, {"t": "none"}]}
+                ty, base_ty, opt = ("optional", ("inst", g)), ("sub", "AnyOf", [("inst", g), ("none",)]), True
+            d_annot = {"annot": True, "ty": ty, "eq": None, "kw": None, "opt": False}
+            assert stored_len(d_annot) == L, (stored_annotation(annot_src(d_annot)), L)
+            d_base = {"annot": False, "ty": base_ty, "eq": None, "kw": None, "opt": opt}
+            members = [{"name": "a", "f": f, "opt": opt, "default": None},
+                       {"name": "b", "f": dict(INT_F), "opt": False, "default": None}]
+            cases.append({"idx": idx0 + len(cases), "members": members, "lattice": "future-length",
+                          "variants": [{"decls": [d_base, b_decl], "changed": None},
+                                       {"decls": [d_annot, b_decl], "changed": 0}]})
+    return cases
+
+
 _REF_CACHE = {}
 
 
@@ -331,11 +360,33 @@ def default_valid(f, d, ctx):
 
 # ----------------------------------------------------------------------------- rendering / realisation
 
-def decl_line(name, dc):
+def annot_src(dc):
+    """Source text of the type expression of a declaration (default= included)."""
     if dc["kw"] is not None:
-        src = P.render(dc["ty"], G.py_src(dc["kw"]))
-    else:
-        src = P.render(dc["ty"])
+        return P.render(dc["ty"], G.py_src(dc["kw"]))
+    return P.render(dc["ty"])
+
+
+_STORED = {}
+
+
+def stored_annotation(src):
+    """The text the COMPILER stores for the annotation `src` under `from __future__ import annotations`."""
+    if src not in _STORED:
+        import __future__
+        ns = {}
+        exec(compile("a: " + src, "<annotation>", "exec", flags=__future__.annotations.compiler_flag,
+                     dont_inherit=True), ns)
+        _STORED[src] = ns["__annotations__"]["a"]
+    return _STORED[src]
+
+
+def stored_len(dc):
+    return len(stored_annotation(annot_src(dc))) if dc["annot"] else 0
+
+
+def decl_line(name, dc):
+    src = annot_src(dc)
     if dc["annot"]:
         line = "%s: %s" % (name, src)
         if dc["eq"] is not None:
@@ -631,10 +682,7 @@ def run_class_cases(rep, cases, ctx, workdir, rnd, per_field):
                 aspect, detail = first_difference(obs[0][vi], obs[1][vi])
                 if aspect:
                     v = c["variants"][vi]
-                    long_names = [n for n, d in zip(names, v["decls"])
-                                  if d["annot"] and len(P.annotation_text(decl_line(n, d).split(": ", 1)[1]
-                                                                          .rsplit(" = ", 1)[0] if d["eq"] is not None
-                                                                          else decl_line(n, d).split(": ", 1)[1])) >= 50]
+                    long_names = [n for n, d in zip(names, v["decls"]) if d["annot"] and stored_len(d) >= 50]
                     o_f = obs[1][vi]
                     if long_names and o_f["def"] == "ok" and obs[0][vi]["def"] == "ok" and \
                             set(obs[0][vi]["fields"]) - set(o_f["fields"]) == set(long_names) & set(obs[0][vi]["fields"]):
@@ -791,9 +839,45 @@ def emit_decl(name, dc):
         E.blit(dc["opt"])))
 
 
-def run_correspondence(rep, spell_cases, decl_cases, ctx, workdir):
-    """spell_cases: [(ctxkind, spelling)], decl_cases: [decl dict].  Realises one probe class each (no
-    __future__ import), evaluates the model in Coq."""
+def observe_decl(obj):
+    if isinstance(obj, BaseException):
+        return ("raise", E.exn_name(obj))
+    fo = obj.get_all_fields_by_name().get("a")
+    if fo is None:
+        return ("ignored",)
+    o = observe_fieldobj(fo)
+    if o[0] != "field":
+        return o
+    dv = getattr(fo, "_default", None)
+    return ("field", o[1], None if dv is None else E.reify(dv), "a" in obj._required)
+
+
+def emit_dcase(dc, o):
+    fields = P.fields_in(dc["ty"], [])
+    vals = [v for v in (dc["eq"], dc["kw"]) if v is not None]
+    tbl = G.match_table(fields, vals)
+    if o[0] == "field":
+        ob = "(DField %s %s %s)" % (G.emit_field(o[1]), E.opt(o[2], E.pval), E.blit(o[3]))
+    elif o[0] == "ignored":
+        ob = "DIgnored"
+    elif o[0] == "defective":
+        ob = "DDefective"
+    else:
+        ob = "(DRaise %s)" % E.exn(o[1])
+    return "{| dc_tbl := %s; dc_env := env0; dc_decl := %s; dc_obs := %s |}" % (G.emit_table(tbl), emit_decl("a", dc), ob)
+
+
+def run_correspondence(rep, spell_cases, decl_cases, ctx, workdir, fut_cases=()):
+    """spell_cases: [(ctxkind, spelling)], decl_cases: [decl dict] realised as one probe class each WITHOUT the
+    __future__ import, fut_cases: [decl dict] realised WITH it; evaluates the model in Coq."""
+    fobs = []
+    if fut_cases:
+        fmod = load_module(workdir, "\n".join(class_src("F%d" % i, ["a"], [dc]) for i, dc in enumerate(fut_cases)),
+                           ctx, True)
+        try:
+            fobs = [observe_decl(getattr(fmod, "F%d" % i)) for i in range(len(fut_cases))]
+        finally:
+            unload(fmod)
     texts = []
     for i, (ck, s) in enumerate(spell_cases):
         src = P.render(s)
@@ -804,22 +888,7 @@ def run_correspondence(rep, spell_cases, decl_cases, ctx, workdir):
     mod = load_module(workdir, "\n".join(texts), ctx, False)
     try:
         sobs = [observe_probe(getattr(mod, "S%d" % i), ck) for i, (ck, _) in enumerate(spell_cases)]
-        dobs = []
-        for i, dc in enumerate(decl_cases):
-            obj = getattr(mod, "D%d" % i)
-            if isinstance(obj, BaseException):
-                dobs.append(("raise", E.exn_name(obj)))
-                continue
-            fo = obj.get_all_fields_by_name().get("a")
-            if fo is None:
-                dobs.append(("ignored",))
-                continue
-            o = observe_fieldobj(fo)
-            if o[0] != "field":
-                dobs.append(o)
-                continue
-            dv = getattr(fo, "_default", None)
-            dobs.append(("field", o[1], None if dv is None else E.reify(dv), "a" in obj._required))
+        dobs = [observe_decl(getattr(mod, "D%d" % i)) for i in range(len(decl_cases))]
     finally:
         unload(mod)
     skip = lambda o: o[0] == "unreifiable"
@@ -834,33 +903,28 @@ def run_correspondence(rep, spell_cases, decl_cases, ctx, workdir):
     for dc, o in zip(decl_cases, dobs):
         if skip(o):
             continue
-        fields = P.fields_in(dc["ty"], [])
-        vals = [v for v in (dc["eq"], dc["kw"]) if v is not None]
-        tbl = G.match_table(fields, vals)
-        if o[0] == "field":
-            ob = "(DField %s %s %s)" % (G.emit_field(o[1]), E.opt(o[2], E.pval), E.blit(o[3]))
-        elif o[0] == "ignored":
-            ob = "DIgnored"
-        elif o[0] == "defective":
-            ob = "DDefective"
-        else:
-            ob = "(DRaise %s)" % E.exn(o[1])
-        ditems.append(("d", "{| dc_tbl := %s; dc_env := env0; dc_decl := %s; dc_obs := %s |}" % (
-            G.emit_table(tbl), emit_decl("a", dc), ob), (dc, o)))
+        ditems.append(("d", emit_dcase(dc, o), (dc, o)))
+    fitems = []
+    for dc, o in zip(fut_cases, fobs):
+        if skip(o):
+            continue
+        fitems.append(("f", "{| fc_len := %s; fc_case := %s |}" % (E.zlit(stored_len(dc)), emit_dcase(dc, o)), (dc, o)))
     per = 250
     index = []
-    for kind, its in (("s", items), ("d", ditems)):
+    for kind, its in (("s", items), ("d", ditems), ("f", fitems)):
         for s0 in range(0, len(its), per):
             chunk = its[s0:s0 + per]
-            ty = "scase" if kind == "s" else "dcase"
-            fn_m, fn_u = ("smismatch", "sunmodelled") if kind == "s" else ("dmismatch", "dunmodelled")
+            ty = {"s": "scase", "d": "dcase", "f": "fcase"}[kind]
+            fn_m, fn_u = {"s": ("smismatch", "sunmodelled"), "d": ("dmismatch", "dunmodelled"),
+                          "f": ("fmismatch", "funmodelled")}[kind]
             body = "Definition cases : list %s := %s.\n" % (ty, E.lst(["\n " + t for _, t, _ in chunk]))
             body += "Eval vm_compute in (indices_where %s cases 0).\n" % fn_m
             body += "Eval vm_compute in (indices_where %s cases 0).\n" % fn_u
             shards.append(body)
             index.append((kind, chunk))
     res = core.eval_cases(shards, "c13", HEADER % ctx.coq_env())
-    out = {"s": {"n": len(items), "mismatch": [], "unmodelled": 0}, "d": {"n": len(ditems), "mismatch": [], "unmodelled": 0}}
+    out = {"s": {"n": len(items), "mismatch": [], "unmodelled": 0}, "d": {"n": len(ditems), "mismatch": [], "unmodelled": 0},
+           "f": {"n": len(fitems), "mismatch": [], "unmodelled": 0, "obs": fobs}}
     for (kind, chunk), (rc, so, se) in zip(index, res):
         vals = core.parse_eval(so)
         if rc != 0 or len(vals) != 2:
@@ -888,6 +952,7 @@ def run(rep, tier):
         cases = [gen_class_case(rnd, i, ctx, max_depth) for i in range(n_classes)]
         cases += optional_lattice(ctx, len(cases), tier)
         cases += default_lattice(ctx, len(cases), tier)
+        cases += future_length_lattice(ctx, len(cases), tier)
         batch = 35
         for s0 in range(0, len(cases), batch):
             run_class_cases(rep, cases[s0:s0 + batch], ctx, workdir, rnd, per_field)
@@ -902,7 +967,9 @@ def run(rep, tier):
                 return
             seen.add(key)
             spell_cases.append((ck, s))
-        for c in cases:
+        fut_cases = []
+        # the deterministic lattices first: the limits below must never cut them off
+        for c in sorted(cases, key=lambda c: 0 if c.get("lattice") else 1):
             for v in c["variants"]:
                 if v["changed"] is None:
                     idxs = range(len(v["decls"]))
@@ -924,15 +991,26 @@ def run(rep, tier):
                             and union_kept(d["ty"], ctx):
                         seen.add(dk)
                         decl_cases.append(d)
-        limit = 1500 if tier == "quick" else 12000
+                    fk = ("f", decl_line("a", d), d["opt"])
+                    if fk not in seen and union_kept(d["ty"], ctx) and \
+                            (d["annot"] or rnd.random() < 0.1) and (c.get("lattice") or rnd.random() < 0.5):
+                        seen.add(fk)
+                        fut_cases.append(d)
+        limit = 3000 if tier == "quick" else 12000
         spell_cases = spell_cases[:limit]
         decl_cases = decl_cases[:limit]
+        fut_cases = fut_cases[:limit]
         for ck, s in spell_cases:
             rep.count("spelling->field", 1, (ck, P.signature(s)))
             rep.stat("spelling->field", "ctx:" + ck)
             rep.stat("spelling->field", "form:" + P.top_form(s))
         for d in decl_cases:
             rep.count("declaration->(field,default,required)", 1, decl_sig(d))
+        for d in fut_cases:
+            L = stored_len(d)
+            rep.count("future-declaration", 1, (decl_sig(d), min(L, 60)))
+            rep.stat("future-declaration", "annotation-length:" + ("not-an-annotation" if not d["annot"] else
+                     "<40" if L < 40 else ">60" if L > 60 else str(L)))
         if cases:
             c = cases[0]
             rep.sample({"class": class_body([m["name"] for m in c["members"]], c["variants"][0]["decls"]),
@@ -942,7 +1020,7 @@ def run(rep, tier):
                         "variants": len(c["variants"]), "observed": {k: c["obs"][0][-1].get(k) for k in ("def", "fields", "required")}})
         if model_ok:
             try:
-                r, sobs, dobs = run_correspondence(rep, spell_cases, decl_cases, ctx, workdir)
+                r, sobs, dobs = run_correspondence(rep, spell_cases, decl_cases, ctx, workdir, fut_cases)
             except RuntimeError as ex:
                 rep.broken("correspondence:coq-eval", str(ex))
                 r = None
@@ -957,6 +1035,11 @@ def run(rep, tier):
                                "%d cases, %d mismatches" % (r["s"]["n"], len(r["s"]["mismatch"])))
                 rep.obligation("correspondence:declaration", not r["d"]["mismatch"],
                                "%d cases, %d mismatches" % (r["d"]["n"], len(r["d"]["mismatch"])))
+                for o in r["f"]["obs"]:
+                    rep.stat("future-declaration", "outcome:" + (o[0] if o[0] != "raise" else o[1]))
+                rep.cov["streams"].setdefault("future-declaration", {})["outside_model_skipped"] = r["f"]["unmodelled"]
+                rep.obligation("correspondence:future-declaration", not r["f"]["mismatch"],
+                               "%d cases, %d mismatches" % (r["f"]["n"], len(r["f"]["mismatch"])))
                 concrete = any(not v["no_input"] for v in rep.violations)
                 if r["s"]["mismatch"] and not concrete:
                     ck, s, o = r["s"]["mismatch"][0]
@@ -972,6 +1055,15 @@ def run(rep, tier):
                                % len(r["d"]["mismatch"]),
                                {"declaration": decl_line("a", dc), "optional": dc["opt"], "observed": repr(o),
                                 "others": [(decl_line("a", a), repr(b)) for a, b in r["d"]["mismatch"][1:8]]})
+                if r["f"]["mismatch"] and not concrete:
+                    dc, o = r["f"]["mismatch"][0]
+                    rep.broken("correspondence:future-declaration",
+                               "model (Struct/Spelling.v class_result_future, guard from Gen/AnnotGuards.v) and typedpy "
+                               "differ on %d declarations under `from __future__ import annotations`"
+                               % len(r["f"]["mismatch"]),
+                               {"declaration": decl_line("a", dc), "optional": dc["opt"], "observed": repr(o),
+                                "stored_annotation_length": stored_len(dc),
+                                "others": [(decl_line("a", a), repr(b)) for a, b in r["f"]["mismatch"][1:8]]})
     finally:
         core.cleanup(workdir)
     if not proofs_ok:
